@@ -7,7 +7,9 @@ func extraEngineFor(prop string, t *testing.T) Engine {
 	case "C07":
 		return linEngine{t: t}
 	case "C05":
-		return multiEngine{engines: map[string]Engine{"compact": compactEngine{t}, "crash": crashEngine{}}, order: []string{"compact", "crash"}, weights: []int{3, 1}}
+		return multiEngine{engines: map[string]Engine{"compact": compactEngine{t: t}, "crash": crashEngine{}}, order: []string{"compact", "crash"}, weights: []int{3, 1}}
+	case "C06":
+		return multiEngine{engines: map[string]Engine{"crash": crashEngine{}, "compact-ploss": compactEngine{t: t, ploss: true}}, order: []string{"crash", "compact-ploss"}, weights: []int{3, 1}}
 	case "C10":
 		return chaosEngine{t}
 	case "C10R":
